@@ -46,6 +46,10 @@ struct Layer {
     stateless: Option<bool>,
     parallel: Option<bool>,
     followup: Option<String>,
+    /// when set the file holds exactly this text (malformed configuration around a secret); such scenarios are
+    /// oracle-only (the model has no malformed files)
+    #[serde(default)]
+    raw_text: Option<String>,
 }
 #[derive(Clone, Serialize, Deserialize, Debug, Default)]
 struct Ovr {
@@ -69,6 +73,15 @@ struct Scenario {
     config_home: bool,
     /// channel label for the distribution histogram
     channel: String,
+    /// run against the real `ripd` process (HTTP) instead of the in-process router
+    #[serde(default)]
+    real_authority: bool,
+    /// not compared with the model (malformed files, secrets that cannot be sent): canary search + differential only
+    #[serde(default)]
+    oracle_only: bool,
+    /// the secret cannot reach the provider in this scenario (positive control not applicable)
+    #[serde(default)]
+    secret_unsendable: bool,
 }
 
 #[allow(dead_code)]
@@ -96,6 +109,7 @@ fn subst_opt(s: &Option<String>, m: &[(&str, &str)]) -> Option<String> {
 fn concretise(sc: &Scenario, m: &[(&str, &str)]) -> Scenario {
     let mut c = sc.clone();
     for l in &mut c.layers {
+        l.raw_text = subst_opt(&l.raw_text, m);
         for p in &mut l.providers {
             p.endpoint = subst_opt(&p.endpoint, m);
             p.api_key = p.api_key.as_ref().map(|k| match k {
@@ -168,6 +182,9 @@ fn layer_json(l: &Layer) -> Value {
     Value::Object(root)
 }
 fn layer_text(l: &Layer) -> String {
+    if let Some(t) = &l.raw_text {
+        return t.clone();
+    }
     let body = serde_json::to_string_pretty(&layer_json(l)).unwrap();
     if l.slot == 0 || l.slot == 3 || l.slot == 5 {
         // JSONC: comments and a trailing comma
@@ -205,6 +222,12 @@ struct ChildSpec {
     prompt: String,
     out_obs: String,
     out_raw: String,
+    /// path of the real `ripd` binary: when set the child spawns it (with the child's own environment) and
+    /// talks HTTP to it instead of building the router in-process
+    #[serde(default)]
+    ripd_bin: Option<String>,
+    #[serde(default)]
+    out_dir: String,
 }
 #[derive(Serialize, Deserialize, Debug, Default)]
 struct ChildObs {
@@ -214,6 +237,9 @@ struct ChildObs {
     thread_frames: Vec<Value>,
     statuses: Vec<(String, u16)>,
     errors: Vec<String>,
+    /// `http://127.0.0.1:PORT` the real authority listened on
+    #[serde(default)]
+    authority: String,
     /// (label, body) of every non-SSE response, in call order
     #[serde(default)]
     bodies: Vec<(String, String)>,
@@ -232,43 +258,92 @@ fn child_main(spec_path: &str) -> i32 {
     0
 }
 
+type ByteStream = std::pin::Pin<Box<dyn futures_util::Stream<Item = Result<Vec<u8>, String>> + Send>>;
+struct Resp {
+    status: u16,
+    headers: Vec<(String, Vec<u8>)>,
+    body: ByteStream,
+}
+/// the authority under test: the router in this process, or the real `ripd` binary over HTTP
+#[derive(Clone)]
+enum Target {
+    InProc(axum::Router),
+    Http(reqwest::Client, String),
+}
+impl Target {
+    async fn request(&self, method: &str, uri: &str, body: Option<Value>) -> Result<Resp, String> {
+        use futures_util::StreamExt;
+        match self {
+            Target::InProc(app) => {
+                use tower::ServiceExt;
+                let mut b = axum::http::Request::builder().method(method).uri(uri);
+                let body = match body {
+                    Some(v) => {
+                        b = b.header("content-type", "application/json");
+                        axum::body::Body::from(serde_json::to_vec(&v).unwrap())
+                    }
+                    None => axum::body::Body::empty(),
+                };
+                let resp = app.clone().oneshot(b.body(body).unwrap()).await.map_err(|e| e.to_string())?;
+                let status = resp.status().as_u16();
+                let headers = resp.headers().iter().map(|(k, v)| (k.as_str().to_string(), v.as_bytes().to_vec())).collect();
+                let body: ByteStream = Box::pin(resp.into_body().into_data_stream().map(|r| r.map(|b| b.to_vec()).map_err(|e| e.to_string())));
+                Ok(Resp { status, headers, body })
+            }
+            Target::Http(client, base) => {
+                let m = reqwest::Method::from_bytes(method.as_bytes()).unwrap();
+                let mut rb = client.request(m, format!("{base}{uri}"));
+                if let Some(v) = body {
+                    rb = rb.json(&v);
+                }
+                let resp = rb.send().await.map_err(|e| e.to_string())?;
+                let status = resp.status().as_u16();
+                let headers = resp.headers().iter().map(|(k, v)| (k.as_str().to_string(), v.as_bytes().to_vec())).collect();
+                let body: ByteStream = Box::pin(resp.bytes_stream().map(|r| r.map(|b| b.to_vec()).map_err(|e| e.to_string())));
+                Ok(Resp { status, headers, body })
+            }
+        }
+    }
+}
+
 async fn call(
-    app: &axum::Router,
+    app: &Target,
     raw: &mut Vec<u8>,
     obs: &mut ChildObs,
     method: &str,
     uri: &str,
     body: Option<Value>,
 ) -> (u16, Vec<u8>) {
-    use http_body_util::BodyExt;
-    use tower::ServiceExt;
-    let mut b = axum::http::Request::builder().method(method).uri(uri);
-    let body = match body {
-        Some(v) => {
-            b = b.header("content-type", "application/json");
-            axum::body::Body::from(serde_json::to_vec(&v).unwrap())
-        }
-        None => axum::body::Body::empty(),
-    };
-    let resp = match app.clone().oneshot(b.body(body).unwrap()).await {
+    use futures_util::StreamExt;
+    let mut resp = match app.request(method, uri, body).await {
         Ok(r) => r,
         Err(e) => {
             obs.errors.push(format!("{method} {uri}: {e}"));
             return (0, vec![]);
         }
     };
-    let status = resp.status().as_u16();
+    let status = resp.status;
     raw.extend_from_slice(format!("\n### {method} {uri} -> {status}\n").as_bytes());
-    for (k, v) in resp.headers() {
-        raw.extend_from_slice(k.as_str().as_bytes());
+    for (k, v) in &resp.headers {
+        raw.extend_from_slice(k.as_bytes());
         raw.extend_from_slice(b": ");
-        raw.extend_from_slice(v.as_bytes());
+        raw.extend_from_slice(v);
         raw.push(b'\n');
     }
-    let bytes = match tokio::time::timeout(Duration::from_secs(20), resp.into_body().collect()).await {
-        Ok(Ok(c)) => c.to_bytes().to_vec(),
+    let collect = async {
+        let mut all = vec![];
+        while let Some(c) = resp.body.next().await {
+            match c {
+                Ok(b) => all.extend_from_slice(&b),
+                Err(_) => break,
+            }
+        }
+        all
+    };
+    let bytes = match tokio::time::timeout(Duration::from_secs(240), collect).await {
+        Ok(b) => b,
         _ => {
-            obs.errors.push(format!("{method} {uri}: body timeout"));
+            obs.errors.push(format!("{method} {uri}: body watchdog"));
             vec![]
         }
     };
@@ -294,7 +369,7 @@ fn any_log_has(dir: &Path, id: &str, ty: &str) -> bool {
 /// published between their subscribe and replay steps; completion must not depend on that), or a generous
 /// watchdog expires; returns the frames seen
 async fn sse_until(
-    app: &axum::Router,
+    app: &Target,
     raw: &mut Vec<u8>,
     obs: &mut ChildObs,
     uri: &str,
@@ -303,23 +378,21 @@ async fn sse_until(
     timeout_s: u64,
 ) -> Vec<Value> {
     use futures_util::StreamExt;
-    use tower::ServiceExt;
-    let req = axum::http::Request::builder().method("GET").uri(uri).body(axum::body::Body::empty()).unwrap();
-    let resp = match app.clone().oneshot(req).await {
+    let resp = match app.request("GET", uri, None).await {
         Ok(r) => r,
         Err(e) => {
             obs.errors.push(format!("GET {uri}: {e}"));
             return vec![];
         }
     };
-    let status = resp.status().as_u16();
+    let status = resp.status;
     raw.extend_from_slice(format!("\n### GET {uri} -> {status}\n").as_bytes());
     obs.statuses.push(("SSE".into(), status));
     let mut frames = vec![];
     if status != 200 {
         return frames;
     }
-    let mut stream = resp.into_body().into_data_stream();
+    let mut stream = resp.body;
     let mut buf: Vec<u8> = vec![];
     let deadline = tokio::time::Instant::now() + Duration::from_secs(timeout_s);
     let mut done = false;
@@ -368,9 +441,56 @@ async fn sse_until(
 async fn child_drive(spec: &ChildSpec) -> ChildObs {
     let mut obs = ChildObs::default();
     let mut raw: Vec<u8> = vec![];
-    // exactly what `ripd::server::serve` does at start-up
-    let default_cfg = ripd::verif::OpenResponsesConfig::from_env();
-    let app = ripd::verif::build_app(PathBuf::from(&spec.data_dir), PathBuf::from(&spec.workspace), default_cfg);
+    let mut authority: Option<std::process::Child> = None;
+    let app = if let Some(bin) = &spec.ripd_bin {
+        // the real authority process: `ripd` (serve_default) configured through the environment only
+        let out_dir = PathBuf::from(&spec.out_dir);
+        let stderr_path = out_dir.join("ripd.stderr");
+        let mut cmd = std::process::Command::new(bin);
+        cmd.env("RIP_DATA_DIR", &spec.data_dir)
+            .env("RIP_WORKSPACE_ROOT", &spec.workspace)
+            .env("RIP_SERVER_ADDR", "127.0.0.1:0")
+            .stdin(std::process::Stdio::null())
+            .stdout(std::fs::File::create(out_dir.join("ripd.stdout")).unwrap())
+            .stderr(std::fs::File::create(&stderr_path).unwrap());
+        let child = match cmd.spawn() {
+            Ok(c) => c,
+            Err(e) => {
+                obs.errors.push(format!("spawn {bin}: {e}"));
+                return obs;
+            }
+        };
+        authority = Some(child);
+        // generous, load-independent watchdog: the line appears once the listener is bound
+        let mut addr = None;
+        for _ in 0..24000 {
+            if let Ok(t) = std::fs::read_to_string(&stderr_path) {
+                if let Some(l) = t.lines().find_map(|l| l.strip_prefix("ripd listening on ")) {
+                    addr = Some(l.trim().to_string());
+                    break;
+                }
+            }
+            if let Some(Ok(Some(st))) = authority.as_mut().map(|c| c.try_wait()) {
+                obs.errors.push(format!("ripd exited before listening: {st}"));
+                return obs;
+            }
+            tokio::time::sleep(Duration::from_millis(10)).await;
+        }
+        let Some(addr) = addr else {
+            obs.errors.push("ripd never announced its address".into());
+            if let Some(mut c) = authority {
+                let _ = c.kill();
+                let _ = c.wait();
+            }
+            return obs;
+        };
+        obs.authority = addr.clone();
+        Target::Http(reqwest::Client::builder().no_proxy().build().unwrap(), addr)
+    } else {
+        // exactly what `ripd::server::serve` does at start-up
+        let default_cfg = ripd::verif::OpenResponsesConfig::from_env();
+        Target::InProc(ripd::verif::build_app(PathBuf::from(&spec.data_dir), PathBuf::from(&spec.workspace), default_cfg))
+    };
 
     let (_, b) = call(&app, &mut raw, &mut obs, "GET", "/config/doctor", None).await;
     obs.doctor = serde_json::from_slice(&b).unwrap_or(Value::Null);
@@ -417,6 +537,25 @@ async fn child_drive(spec: &ChildSpec) -> ChildObs {
     call(&app, &mut raw, &mut obs, "GET", "/tasks", None).await;
     tokio::time::sleep(Duration::from_millis(30)).await;
     std::fs::write(&spec.out_raw, &raw).unwrap();
+    drop(app);
+    if let Some(mut c) = authority {
+        // graceful stop (SIGTERM -> axum graceful shutdown, lock released), then make sure it is gone
+        unsafe {
+            libc::kill(c.id() as i32, libc::SIGTERM);
+        }
+        let mut gone = false;
+        for _ in 0..3000 {
+            if let Ok(Some(_)) = c.try_wait() {
+                gone = true;
+                break;
+            }
+            tokio::time::sleep(Duration::from_millis(10)).await;
+        }
+        if !gone {
+            let _ = c.kill();
+            let _ = c.wait();
+        }
+    }
     obs
 }
 
@@ -499,6 +638,7 @@ struct RunOut {
     root: String,
     prov: String,
     dead: String,
+    authority: String,
 }
 
 fn walk(dir: &Path, base: &Path, out: &mut Vec<(String, Vec<u8>)>) {
@@ -513,6 +653,17 @@ fn walk(dir: &Path, base: &Path, out: &mut Vec<(String, Vec<u8>)>) {
             out.push((p.strip_prefix(base).unwrap_or(&p).display().to_string(), b));
         }
     }
+}
+
+/// the real authority binary (`c19_ripd`, built next to this executable by the check's pre_cmd), or $RV_RIPD_BIN
+fn ripd_bin() -> Option<PathBuf> {
+    if let Ok(p) = std::env::var("RV_RIPD_BIN") {
+        let p = PathBuf::from(p);
+        return p.exists().then_some(p);
+    }
+    let exe = std::env::current_exe().ok()?;
+    let p = exe.parent()?.join("c19_ripd");
+    p.exists().then_some(p)
 }
 
 fn dead_addr() -> String {
@@ -563,6 +714,8 @@ fn run_once(sc: &Scenario, key: &str, hdr: &str) -> RunOut {
         prompt: c.prompt.clone(),
         out_obs: root.join("out/obs.json").display().to_string(),
         out_raw: root.join("out/raw.bin").display().to_string(),
+        ripd_bin: if c.real_authority { ripd_bin().map(|p| p.display().to_string()) } else { None },
+        out_dir: root.join("out").display().to_string(),
     };
     let spec_path = root.join("out/spec.json");
     std::fs::write(&spec_path, serde_json::to_vec(&spec).unwrap()).unwrap();
@@ -590,6 +743,10 @@ fn run_once(sc: &Scenario, key: &str, hdr: &str) -> RunOut {
     walk(&root.join("outer/ws/.rip"), &root, &mut files);
     let raw_responses = std::fs::read(root.join("out/raw.bin")).unwrap_or_default();
     let recorded = provider.recorded();
+    let mut child_stdout = out.stdout.clone();
+    let mut child_stderr = out.stderr.clone();
+    child_stdout.extend(std::fs::read(root.join("out/ripd.stdout")).unwrap_or_default());
+    child_stderr.extend(std::fs::read(root.join("out/ripd.stderr")).unwrap_or_default());
     let parse_lines = |b: &[u8]| -> Vec<Value> { String::from_utf8_lossy(b).lines().filter_map(|l| serde_json::from_str::<Value>(l).ok()).collect() };
     let mut disk_session = vec![];
     let mut disk_thread = vec![];
@@ -600,6 +757,7 @@ fn run_once(sc: &Scenario, key: &str, hdr: &str) -> RunOut {
             disk_thread.extend(parse_lines(b));
         }
     }
+    let obs_authority = obs.authority.clone();
     RunOut {
         sc: c,
         obs,
@@ -608,8 +766,9 @@ fn run_once(sc: &Scenario, key: &str, hdr: &str) -> RunOut {
         recorded,
         files,
         raw_responses,
-        stdout: out.stdout,
-        stderr: out.stderr,
+        stdout: child_stdout,
+        stderr: child_stderr,
+        authority: obs_authority,
         exit_ok: out.status.success(),
         root: root.display().to_string(),
         prov,
@@ -694,6 +853,7 @@ fn canon(bytes: &[u8], r: &RunOut) -> Vec<u8> {
     s = rep(s, &r.root, "<ROOT>");
     s = rep(s, r.prov.trim_start_matches("http://"), "<PROV>");
     s = rep(s, r.dead.trim_start_matches("http://"), "<DEAD>");
+    s = rep(s, r.authority.trim_start_matches("http://"), "<AUTH>");
     // uuids (8-4-4-4-12) and long hex runs (>= 32)
     let mut o: Vec<u8> = Vec::with_capacity(s.len());
     let mut i = 0;
@@ -955,8 +1115,10 @@ fn endpoint_variant(rng: &mut Rng, want: u8) -> String {
 fn gen_scenario(rng: &mut Rng, i: u64) -> Scenario {
     let mut sc = Scenario { prompt: format!("say hi #{i}"), ..Default::default() };
     sc.outcome = (i % 8) as u8;
-    let channel = (i / 8) % 8;
+    let channel = (i / 8) % 10;
     sc.thread = channel != 7;
+    // every third scenario runs against the real `ripd` process (start-up path, authority lock, real HTTP)
+    sc.real_authority = i % 3 == 1;
     sc.config_home = rng.chance(1, 2);
     let key_wrapped = match rng.below(3) {
         0 => "{{K}}".to_string(),
@@ -1037,6 +1199,43 @@ fn gen_scenario(rng: &mut Rng, i: u64) -> Scenario {
                 sc.env.push(("LAYER_KEY".into(), key_wrapped.clone()));
             }
             sc.layers.push(hi);
+        }
+        8 => {
+            // a secret that cannot be put into an HTTP header (control character / non-ASCII): the request builder
+            // fails and the transport-error frame carries reqwest's builder error
+            sc.channel = "unsendable-secret".into();
+            sc.oracle_only = true;
+            sc.secret_unsendable = true;
+            let bad = if rng.chance(1, 2) { "{{K}}\nX-Injected: 1" } else { "{{K}}\u{7f}é" };
+            if rng.chance(1, 2) {
+                prov.api_key = Some(KeySpec::Inline(bad.to_string()));
+            } else {
+                prov.api_key = Some(KeySpec::Inline(key_wrapped.clone()));
+                prov.headers.push(("X-Api-Key".into(), format!("tok {{{{H}}}}{}", &bad[5..])));
+            }
+            base.model = Some(route.clone());
+        }
+        9 => {
+            // malformed configuration around the secret: a syntax error after the inline key in one file, a type
+            // error (api_key / header value of the wrong JSON type) in another; the endpoint comes from the
+            // environment so that a run still happens; the doctor reports the files as invalid
+            sc.channel = "malformed-config".into();
+            sc.oracle_only = true;
+            sc.secret_unsendable = true;
+            sc.env.push(("RIP_OPENRESPONSES_ENDPOINT".into(), ep.clone()));
+            prov.endpoint = None;
+            let broken = match rng.below(3) {
+                0 => "{ \"provider\": { \"acme\": { \"api_key\": \"{{K}}\" \"endpoint\": 5 } } }".to_string(),
+                1 => "{ \"provider\": { \"acme\": { \"api_key\": \"{{K}}\\u00zz\" } } }".to_string(),
+                _ => "{ \"provider\": { \"acme\": { \"api_key\": \"{{K}}".to_string(),
+            };
+            sc.layers.push(Layer { slot: *rng.pick(&[3u8, 4]), raw_text: Some(broken), ..Default::default() });
+            let typed = match rng.below(3) {
+                0 => "{ \"provider\": { \"acme\": { \"endpoint\": \"{{P}}/v1/responses\", \"api_key\": { \"envx\": \"{{K}}\" } } }, \"model\": \"acme/m\" }".to_string(),
+                1 => "{ \"provider\": { \"acme\": { \"endpoint\": \"{{P}}/v1/responses\", \"api_key\": [\"{{K}}\"], \"headers\": { \"X\": 5, \"Y\": \"{{H}}\" } } }, \"model\": \"acme/m\" }".to_string(),
+                _ => "{ \"provider\": \"{{K}}\", \"model\": { \"{{H}}\": 1 } }".to_string(),
+            };
+            sc.layers.push(Layer { slot: *rng.pick(&[5u8, 6]), raw_text: Some(typed), ..Default::default() });
         }
         _ => {
             sc.channel = "session-from-env".into();
@@ -1169,7 +1368,7 @@ fn check_pair(a: &RunOut, b: &RunOut, cores: [&str; 4], sc: &Scenario) -> PairRe
             key_ok
         }
     };
-    if sc.outcome == 2 {
+    if sc.outcome == 2 || sc.secret_unsendable {
         rep.positive_na = true;
     } else {
         rep.positive = reached(a, cores[0], cores[1]) && reached(b, cores[2], cores[3]);
@@ -1236,7 +1435,7 @@ fn main() {
     let mut rng = Rng::new(args.seed);
     let mut res = RunResult::new("C19", &args);
     res.rule = "distinct = (channel, outcome, path, dump, layer slots, observation) tuples; every scenario is run twice (two canaries) in child processes".into();
-    let n: u64 = args.extra.get("scenarios").and_then(|v| v.parse().ok()).unwrap_or(if args.thorough() { 600 } else { 64 });
+    let n: u64 = args.extra.get("scenarios").and_then(|v| v.parse().ok()).unwrap_or(if args.thorough() { 600 } else { 80 });
     let jobs: usize = args.extra.get("jobs").and_then(|v| v.parse().ok()).unwrap_or(8);
 
     // scenarios: corpus / replay first, then generated
@@ -1266,6 +1465,13 @@ fn main() {
     let n_fixed = scenarios.len();
     for i in 0..n {
         scenarios.push(gen_scenario(&mut rng, i));
+    }
+    let have_ripd = ripd_bin().is_some();
+    if !have_ripd {
+        res.notes.push("real authority binary not found (c19_ripd next to c19, or $RV_RIPD_BIN): every scenario uses the in-process router".into());
+        for sc in &mut scenarios {
+            sc.real_authority = false;
+        }
     }
     // canaries per scenario
     let cores: Vec<[String; 4]> = (0..scenarios.len()).map(|_| [core(&mut rng, 'K'), core(&mut rng, 'H'), core(&mut rng, 'k'), core(&mut rng, 'h')]).collect();
@@ -1303,11 +1509,16 @@ fn main() {
         res.bump(&format!("channel:{}", sc.channel));
         res.bump(&format!("outcome:{}", sc.outcome));
         res.bump(if sc.thread { "path:thread" } else { "path:session" });
+        if sc.oracle_only {
+            res.bump("oracle-only-scenarios (outside the model)");
+        }
+        res.bump(if sc.real_authority { "authority:real-ripd-process" } else { "authority:in-process-router" });
         let dump_on = sc.env.iter().any(|(k, v)| k == "RIP_OPENRESPONSES_DUMP_REQUEST" && matches!(v.to_ascii_lowercase().as_str(), "1" | "true" | "yes" | "on"));
         res.bump(if dump_on { "dump:on" } else { "dump:off" });
         res.bump(&format!("layers:{}", sc.layers.len()));
         res.bump_by("provider-requests-recorded", (a.recorded.len() + b.recorded.len()) as u64);
         res.bump_by("sse-reads-ended-by-disk-log", a.obs.sse_gaps + b.obs.sse_gaps);
+        res.bump_by("real-authority-start-up-lines-captured", [&a, &b].iter().filter(|r| find(&r.stderr, b"ripd listening on ").is_some()).count() as u64);
         res.bump_by("persisted-files-scanned", (a.files.len() + b.files.len()) as u64);
         res.bump_by("persisted-bytes-scanned", a.files.iter().chain(b.files.iter()).map(|f| f.1.len() as u64).sum());
         if rep.positive_na {
@@ -1325,7 +1536,7 @@ fn main() {
             // the model sees the concrete world of this run (actual provider URL, this run's canary)
             let mut conc = r.sc.clone();
             conc.layers.sort_by_key(|l| l.slot);
-            let id = if args.oracle_only() { -1 } else { cw.push(coq_case(&conc, obs)) as i64 };
+            let id = if args.oracle_only() || sc.oracle_only { -1 } else { cw.push(coq_case(&conc, obs)) as i64 };
             ids.push(id);
             if id >= 0 && res.case_index.len() < 400 {
                 res.case_index.insert(id.to_string(), case_json.clone());
@@ -1334,6 +1545,11 @@ fn main() {
         distinct.add(&format!("{}|{}|{}|{}|{:?}|{:?}", sc.channel, sc.outcome, sc.thread, dump_on, sc.layers.iter().map(|l| l.slot).collect::<Vec<_>>(), canon(&obs_a.iter().map(|x| (*x % 251) as u8).collect::<Vec<u8>>(), &a).len()));
         if res.samples.len() < 2 {
             res.samples.push(json!({ "scenario": sc, "doctor": a.obs.doctor, "provider_saw_authorization": a.recorded.first().map(|r| r.headers.iter().any(|(k, _)| k == "authorization")), "frames": a.obs.session_frames.len(), "files": a.files.iter().map(|(p, b)| format!("{}:{}", String::from_utf8_lossy(&canon(p.as_bytes(), &a)), b.len())).collect::<Vec<_>>() }));
+        }
+        if sc.oracle_only && res.samples.len() < 4 && !res.samples.iter().any(|x| x["channel"] == json!(sc.channel)) {
+            let errs: Vec<String> = a.disk_session.iter().filter(|f| f["type"] == "provider_event").flat_map(|f| f["errors"].as_array().cloned().unwrap_or_default()).map(|e| String::from_utf8_lossy(&canon(e.to_string().as_bytes(), &a)).to_string()).collect();
+            let srcs: Vec<String> = a.obs.doctor["sources"].as_array().map(|v| v.iter().filter(|x| x["status"] != "missing").map(|x| format!("{} {}", x["status"], x["error"])).collect()).unwrap_or_default();
+            res.samples.push(json!({ "channel": sc.channel, "outcome": sc.outcome, "error_frames": errs, "doctor_sources": srcs, "doctor_openresponses": a.obs.doctor["openresponses"], "provider_requests": a.recorded.len() }));
         }
         if !rep.positive && !rep.positive_na {
             res.oracle_violations.push(OracleViolation {
